@@ -102,12 +102,13 @@ impl Sink {
 			let p = format!("{}/replay-{}-{}.json", self.replay_dir, v.check, n);
 			let mut rec = replay();
 			rec["viol"] = serde_json::to_value(v).unwrap();
+			rec["logger_installed"] = json!(LOGGING.load(Ordering::SeqCst));
 			std::fs::write(&p, serde_json::to_vec(&rec).unwrap()).ok();
 			p
 		} else {
 			String::new()
 		};
-		let line = json!({"t": "viol", "check": v.check, "class": v.class, "kind": v.kind, "detail": v.detail, "replay": path});
+		let line = json!({"t": "viol", "check": v.check, "class": v.class, "kind": v.kind, "detail": if LOGGING.load(Ordering::SeqCst) { format!("{} [with a logger installed at trace level]", v.detail) } else { v.detail.clone() }, "replay": path});
 		let mut o = self.out.lock().unwrap();
 		writeln!(o, "{}", line).ok();
 	}
@@ -151,7 +152,47 @@ pub fn item_guard(label: &str, f: impl FnOnce()) {
 }
 
 /// Runs `f` over the tagged lines of a TLC output file on `threads` threads.
+/// A logger that formats every record and throws it away: with it enabled, the argument expressions of the
+/// library's log statements are evaluated (they are not when no logger is installed, as under `cargo test`).
+struct EvalLogger;
+
+impl log::Log for EvalLogger {
+	fn enabled(&self, _: &log::Metadata) -> bool {
+		true
+	}
+	fn log(&self, r: &log::Record) {
+		let _ = format!("{}", r.args());
+	}
+	fn flush(&self) {}
+}
+
+static EVAL_LOGGER: EvalLogger = EvalLogger;
+/// every N-th work item is run a second time with logging enabled (0: never)
+pub static LOGGER_STRIDE: AtomicUsize = AtomicUsize::new(0);
+pub static LOGGING: std::sync::atomic::AtomicBool = std::sync::atomic::AtomicBool::new(false);
+
+pub fn set_logging(on: bool) {
+	log::set_max_level(if on { log::LevelFilter::Trace } else { log::LevelFilter::Off });
+	LOGGING.store(on, Ordering::SeqCst);
+}
+
+/// Runs `f` on every tagged line of a TLC output file; then once more, with logging enabled, on every
+/// LOGGER_STRIDE-th of them.
 pub fn for_each_tagged<F>(path: &str, tag: &str, threads: usize, stride: usize, max: usize, f: F) -> usize
+where
+	F: Fn(usize, serde_json::Value) + Sync,
+{
+	let n = for_each_tagged_pass(path, tag, threads, stride, max, 1, &f);
+	let ls = LOGGER_STRIDE.load(Ordering::SeqCst);
+	if ls > 0 && !LOGGING.load(Ordering::SeqCst) {
+		set_logging(true);
+		for_each_tagged_pass(path, tag, threads, stride, max, ls, &f);
+		set_logging(false);
+	}
+	n
+}
+
+fn for_each_tagged_pass<F>(path: &str, tag: &str, threads: usize, stride: usize, max: usize, only_every: usize, f: &F) -> usize
 where
 	F: Fn(usize, serde_json::Value) + Sync,
 {
@@ -189,6 +230,9 @@ where
 						None => return,
 					}
 				};
+				if idx % only_every.max(1) != 0 {
+					continue;
+				}
 				if let Some((_, v)) = parse_tlc_line(&line) {
 					item_guard(tag, || f(idx, v));
 				}
@@ -408,6 +452,10 @@ fn cmd_newer(a: &Args) {
 fn main() {
 	let a = Args::parse();
 	util::install_panic_hook();
+	// logging: off, as under `cargo test`; every `--logger-pass`-th work item is repeated with a logger at trace level
+	let _ = log::set_logger(&EVAL_LOGGER);
+	set_logging(false);
+	LOGGER_STRIDE.store(a.num("logger-pass", 4) as usize, Ordering::SeqCst);
 	match a.cmd.as_str() {
 		"replay-beh" => cmd_replay_beh(&a),
 		"fields" => fields::cmd_fields(&a),
